@@ -169,7 +169,20 @@ def any_gen_path(rs: PR, safe: BOOL, p: SEQS) -> BOOL:
     return False if not rs else (has_path(cfg_of(dhead(rs)[1], safe), p) or any_gen_path(dtail(rs), safe, p))
 
 
-M.contract(FR, "RunGeneratorResult.config_tree", params=dict(self=RGR, safe=BOOL), defaults=dict(safe=False), ret=Tree, locals=dict(tree=Tree),
+def _ct_inputs():
+    import types
+    from annet.generators.result import RunGeneratorResult
+    ts = [c["args"] for c in itertools.islice(_md_inputs(), 60, 400, 7) if len(c["args"]) == 2]
+    for a, b in ts:
+        for safe in (False, True):
+            r = RunGeneratorResult()
+            r.partial_results["g1"] = types.SimpleNamespace(config=a, safe_config=b, name="g1")
+            r.partial_results["g2"] = types.SimpleNamespace(config=b, safe_config=a, name="g2")
+            r.partial_results["g3"] = types.SimpleNamespace(config=a, safe_config=a, name="g3")
+            yield dict(self=r, safe=safe)
+
+
+M.contract(FR, "RunGeneratorResult.config_tree", inputs=_ct_inputs, params=dict(self=RGR, safe=BOOL), defaults=dict(safe=False), ret=Tree, locals=dict(tree=Tree),
            ensures=["result == ctree(self.partial_results, safe, {})"],
            loops={1: dict(match="self.partial_results.values()", inv=["ctree(_rest1, safe, tree) == ctree(self.partial_results, safe, {})"])},
            canaries=["len(result) == 0"], properties=["C10"])
